@@ -172,17 +172,19 @@ class C04World:
             raise _V(Violation(cls, f"views disagree after {op} from state {pre}{where} (fresh={freshness(S)}): {d}", key))
         # C: round trips on a clone, from each stored fresh view
         c = clone_seq(S)
-        if c._abs is not None:
+        c_abs = c._abs if not c._abs_stale else None
+        c_rel = c._rel if not c._rel_stale else None
+        if c_abs is not None:
             try:
-                back = c._abs.to_relative_sequence().to_absolute_sequence()._messages
+                back = c_abs.to_relative_sequence().to_absolute_sequence()._messages
             except Exception as e:
                 raise _V(Violation("CONVERT", f"abs->rel->abs raised {type(e).__name__}: {e} after {op}", key))
             if abs_events(back) != ae or abs_duration(back) != ad:
                 raise _V(Violation("CONVERT", f"abs->rel->abs lossy after {op}{where}: "
                                    f"{first_diff(ae, abs_events(back)) or (ad, abs_duration(back))}", key))
-        if c._rel is not None:
+        if c_rel is not None:
             try:
-                back = c._rel.to_absolute_sequence().to_relative_sequence()._messages
+                back = c_rel.to_absolute_sequence().to_relative_sequence()._messages
             except Exception as e:
                 raise _V(Violation("CONVERT", f"rel->abs->rel raised {type(e).__name__}: {e} after {op}", key))
             if rel_events(back) != re_ or rel_duration(back) != rd:
